@@ -1,9 +1,960 @@
+// C37 — concurrent block, vote and transaction processing neither races nor deadlocks.
+//
+// Dynamic side of the check (the deciding side is the Coq development coq/C37: a checked
+// exploration of the synchronisation skeleton that tools/syncskel extracts from the source).
+//
+// A scenario is a block tree (real signed blocks of a 4-key federation, epoch length 4, built
+// offline by chainlib), a sequential set-up phase and up to four WORKERS that run concurrently as
+// real goroutines against one real node (protocol.Chain on LevelDB, in a child process):
+// verification-message submitters (Chain.ProcessBlockVerification), block submitters
+// (Chain.ProcessBlock), transaction submitters (Chain.ValidateTx) and readers of the query API.
+//
+// Direct oracle (implementation only), on every scenario:
+//   - every call returns: a progress watchdog declares a standstill only when no call has returned
+//     for 2.5 s AND two goroutine dumps 0.7 s apart show every tracked goroutine (workers, the chain's
+//     block processor, casper's cached-vote loop) blocked at identical positions; the dump is the
+//     evidence and names the class (class=auth-rollback-lock-cycle when a goroutine waits inside
+//     Casper.tryRollback while the block processor waits for casper's lock; class=stuck-other else);
+//   - the node does not crash;
+//   - under `go build -race` (a second binary built at run time) the race detector reports nothing
+//     that involves the node's code.
+//   A hard time-out without such a dump is counted ("slow") and reported as nothing.
+//
+// Correspondence with the model: goroutine dumps are sampled during the concurrent phase; every
+// goroutine found blocked exactly at an operation of the skeleton is mapped (by its call path
+// file:line>file:line...) to the program counter of the generated model process; the projection
+// {process -> pc} of every sample must be a REACHABLE state of the model configuration with the
+// same workers, and the positions of a standstill must be a DEADLOCK state of it (C37.Run tables,
+// evaluated by vm_compute).  Race reports are mapped to pairs of access regions in the same way.
 package main
 
 import (
+	"bytes"
+	"encoding/json"
+	"fmt"
+	"os"
+	"os/exec"
+	"path/filepath"
+	"regexp"
+	"sort"
+	"strconv"
+	"strings"
+	"sync"
+	"time"
+
 	. "verifharness/hlib"
 )
 
 func main() { Main("C37", runC37, map[string]func([]string) int{"run": childRun}) }
 
-func runC37(c *Ctx) error { return nil }
+// ---------------------------------------------------------------- skeleton (from tools/syncskel -json)
+
+type skAcc struct {
+	Field string `json:"field"`
+	Write bool   `json:"write"`
+	Path  string `json:"path"`
+}
+
+type skNode struct {
+	PC    int      `json:"pc"`
+	Kind  string   `json:"kind"`
+	Act   string   `json:"act"`
+	Obj   string   `json:"obj"`
+	Accs  []skAcc  `json:"accs"`
+	Path  string   `json:"path"`
+	Paths []string `json:"paths"`
+}
+
+type skProc struct {
+	Name  string   `json:"name"`
+	Nodes []skNode `json:"nodes"`
+}
+
+type skeleton struct {
+	Procs []skProc `json:"procs"`
+	// per process: call path of a blocking operation -> pc ; call path of an access -> pc of its region
+	at   map[string]map[string]int
+	acc  map[string]map[string]int
+	halt map[string]int
+}
+
+func loadSkeleton(root, repo string) (*skeleton, error) {
+	cmd := exec.Command(filepath.Join(root, "build", "bin", "syncskel"), "-json", repo)
+	var stderr bytes.Buffer
+	cmd.Stderr = &stderr
+	out, err := cmd.Output()
+	if err != nil {
+		return nil, fmt.Errorf("syncskel -json: %v: %s", err, stderr.String())
+	}
+	sk := &skeleton{at: map[string]map[string]int{}, acc: map[string]map[string]int{}, halt: map[string]int{}}
+	if err := json.Unmarshal(out, sk); err != nil {
+		return nil, err
+	}
+	for _, p := range sk.Procs {
+		at, acc := map[string]int{}, map[string]int{}
+		sk.halt[p.Name] = -1
+		for _, n := range p.Nodes {
+			switch {
+			case n.Kind == "halt":
+				sk.halt[p.Name] = n.PC
+			case n.Kind == "op" && n.Act == "acc":
+				// a goroutine waiting for a leaf lock inside the region is inside the region
+				for _, q := range n.Paths {
+					at[q] = n.PC
+				}
+				for _, a := range n.Accs {
+					acc[a.Path] = n.PC
+				}
+			case n.Kind == "op" || n.Kind == "sel":
+				if n.Path != "" {
+					at[n.Path] = n.PC
+				}
+				for _, q := range n.Paths {
+					at[q] = n.PC
+				}
+			}
+		}
+		sk.at[p.Name], sk.acc[p.Name] = at, acc
+	}
+	return sk, nil
+}
+
+// ---------------------------------------------------------------- scenario generation
+
+func blk(b string) Event { return Event{K: "block", Block: b} }
+func vote(k int, s, t string) Event {
+	return Event{K: "vote", Key: k, Src: s, Tgt: t}
+}
+func read(api, b string) Event { return Event{K: "read", API: api, Block: b} }
+
+func chain(prefix string, from, to int) []Event {
+	var r []Event
+	for h := from; h <= to; h++ {
+		r = append(r, blk(fmt.Sprintf("%s%d", prefix, h)))
+	}
+	return r
+}
+
+var readAPIs = []string{"best", "justified", "finalized", "inmain", "pool", "validators"}
+
+func randReads(r *Rng, n int, blocks []string) []Event {
+	var ev []Event
+	for i := 0; i < n; i++ {
+		ev = append(ev, read(readAPIs[r.Intn(len(readAPIs))], blocks[r.Intn(len(blocks))]))
+	}
+	return ev
+}
+
+// model configuration of a scenario: number of workers of each kind
+type cfgKey struct{ v, b, t, r int }
+
+// configurations for which C37.Run has a table
+var tables = map[cfgKey]string{
+	{1, 0, 0, 0}: "v1b0t0r0", {1, 0, 0, 1}: "v1b0t0r1", {1, 1, 0, 0}: "v1b1t0r0", {1, 1, 0, 1}: "v1b1t0r1",
+	{1, 1, 1, 1}: "v1b1t1r1", {2, 1, 0, 1}: "v2b1t0r1", {1, 2, 0, 1}: "v1b2t0r1", {0, 2, 1, 1}: "v0b2t1r1",
+	{0, 1, 2, 1}: "v0b1t2r1", {0, 2, 0, 1}: "v0b2t0r1",
+}
+
+func cfgOf(sc *Scenario) cfgKey {
+	var k cfgKey
+	for _, w := range sc.Workers {
+		switch w.Kind {
+		case "vote":
+			k.v++
+		case "block":
+			k.b++
+		case "tx":
+			k.t++
+		case "read":
+			k.r++
+		}
+	}
+	return k
+}
+
+// directed: the confirmed deadlock.  Trunk T1..Tn (n = 4 or 8), branch A (long, delivered), branch B
+// (shorter, delivered up to its first checkpoint); keys 1,2 vote src -> B checkpoint in the set-up,
+// the third vote arrives from a worker and completes the supermajority: the best chain moves.
+func genFlip(r *Rng, id int) *Scenario {
+	trunk := 4 * (1 + r.Intn(2))
+	cp := trunk + 4 // height of the first checkpoint above the trunk
+	src := "G"
+	alen := 8
+	sc := &Scenario{ID: id, Stream: "flip", Seed: r.Next(), Trunk: trunk, Branches: map[string]int{"A": alen, "B": 4 + r.Intn(2)}, SampleMs: 40, Expect: "deadlock"}
+	sc.Setup = append(sc.Setup, chain("T", 1, trunk)...)
+	sc.Setup = append(sc.Setup, chain("A", trunk+1, trunk+alen)...)
+	sc.Setup = append(sc.Setup, chain("B", trunk+1, trunk+sc.Branches["B"])...)
+	tgt := fmt.Sprintf("B%d", cp)
+	keys := []int{1, 2, 3}
+	if r.Bool() {
+		keys = []int{3, 1, 2}
+	}
+	sc.Setup = append(sc.Setup, vote(keys[0], src, tgt), vote(keys[1], src, tgt))
+	sc.Workers = []Worker{{Kind: "vote", Events: []Event{vote(keys[2], src, tgt)}}}
+	names := []string{"G", "T1", fmt.Sprintf("A%d", trunk+2), tgt}
+	switch r.Intn(4) {
+	case 1:
+		sc.Workers = append(sc.Workers, Worker{Kind: "read", Events: append([]Event{{K: "sleep", Ms: 100 + r.Intn(200)}}, randReads(r, 3, names)...)})
+	case 2:
+		sc.Branches["A"] = alen + 1
+		sc.Workers = append(sc.Workers, Worker{Kind: "block", Events: []Event{{K: "sleep", Ms: r.Intn(150)}, blk(fmt.Sprintf("A%d", trunk+alen+1))}})
+	case 3:
+		sc.Branches["A"] = alen + 1
+		sc.Workers = append(sc.Workers, Worker{Kind: "block", Events: []Event{{K: "sleep", Ms: r.Intn(150)}, blk(fmt.Sprintf("A%d", trunk+alen+1))}},
+			Worker{Kind: "read", Events: append([]Event{{K: "sleep", Ms: 100 + r.Intn(200)}}, randReads(r, 3, names)...)})
+	}
+	return sc
+}
+
+// safe: votes justify TRUNK checkpoints only (they lie on every branch, so no vote can move the best
+// chain), while two branches, transactions and queries arrive concurrently.
+func genSafe(r *Rng, id int) *Scenario {
+	sc := &Scenario{ID: id, Stream: "safe", Seed: r.Next(), Trunk: 16, Branches: map[string]int{"A": 3 + r.Intn(4), "B": 2 + r.Intn(4)}, SampleMs: 3, Expect: "completes"}
+	sc.Setup = chain("T", 1, 16)
+	// transactions: 0 spends the h5 reward, 1 spends an output of 0 (orphan if submitted first), 2 spends the h9 reward
+	sc.Txs = []TxSpec{{In: []string{"R5"}, NOut: 2}, {In: []string{"X0.0"}, NOut: 1}, {In: []string{"R9"}, NOut: 1}, {In: []string{"X0.1", "X2.0"}, NOut: 1}}
+	if r.Bool() {
+		sc.BlockTxs = map[string][]int{"A18": {0}} // branch A confirms tx 0 at height 18 (needs A >= 2)
+	}
+	var votes []Event
+	votes = append(votes, vote(1, "G", "T4"), vote(2, "G", "T4"), vote(3, "G", "T4"))
+	votes = append(votes, vote(1, "T4", "T8"), vote(2, "T4", "T8"), vote(3, "T4", "T8"))
+	votes = append(votes, vote(0, "G", "T4"), vote(2, "G", "T4")) // own key / duplicate
+	if r.Bool() {
+		votes = append(votes, vote(1, "T8", "T12"), vote(2, "T8", "T12"), vote(3, "T8", "T12"))
+	}
+	a := chain("A", 17, 16+sc.Branches["A"])
+	b := chain("B", 17, 16+sc.Branches["B"])
+	names := []string{"G", "T4", "T16", "A17", "B17"}
+	txs := []Event{{K: "tx", Tx: 1}, {K: "tx", Tx: 0}, {K: "tx", Tx: 2}, {K: "tx", Tx: 3}, {K: "tx", Tx: 0}}
+	switch r.Intn(5) {
+	case 0:
+		sc.Workers = []Worker{{Kind: "vote", Events: votes}, {Kind: "block", Events: append(a, b...)}, {Kind: "tx", Events: txs}, {Kind: "read", Events: randReads(r, 12, names)}}
+	case 1:
+		sc.Workers = []Worker{{Kind: "vote", Events: votes}, {Kind: "block", Events: a}, {Kind: "block", Events: b}, {Kind: "read", Events: randReads(r, 12, names)}}
+	case 2:
+		sc.Workers = []Worker{{Kind: "vote", Events: votes[:4]}, {Kind: "vote", Events: votes[4:]}, {Kind: "block", Events: append(a, b...)}, {Kind: "read", Events: randReads(r, 12, names)}}
+	case 3:
+		sc.Workers = []Worker{{Kind: "block", Events: a}, {Kind: "block", Events: b}, {Kind: "tx", Events: txs}, {Kind: "read", Events: randReads(r, 12, names)}}
+	default:
+		sc.Workers = []Worker{{Kind: "block", Events: append(b, a...)}, {Kind: "tx", Events: txs}, {Kind: "tx", Events: []Event{{K: "tx", Tx: 2}, {K: "tx", Tx: 3}, {K: "tx", Tx: 1}}}, {Kind: "read", Events: randReads(r, 12, names)}}
+	}
+	return sc
+}
+
+// early: verification messages arrive BEFORE their target block (cached by AuthVerification, replayed
+// by casper's background loop when the next epoch starts) while blocks of both branches are being
+// delivered: the path through authCachedMsg, concurrent with ApplyBlock.
+func genEarly(r *Rng, id int) *Scenario {
+	sc := &Scenario{ID: id, Stream: "early", Seed: r.Next(), Trunk: 4, Branches: map[string]int{"A": 13, "B": 5}, SampleMs: 3, Expect: "any"}
+	sc.Setup = append(chain("T", 1, 4), chain("A", 5, 12)...)
+	for _, k := range []int{1, 2, 3} {
+		sc.Setup = append(sc.Setup, vote(k, "G", "B8"))
+	}
+	sc.Setup = append(sc.Setup, chain("B", 5, 8)...)
+	w1 := []Event{blk("B9")}
+	w2 := []Event{blk("A13"), blk("A14"), blk("A15"), blk("A16"), blk("A17")}
+	if r.Bool() {
+		w1, w2 = w2, w1
+	}
+	sc.Workers = []Worker{{Kind: "block", Events: w1}, {Kind: "block", Events: w2},
+		{Kind: "read", Events: randReads(r, 8, []string{"G", "T4", "A12", "B8"})}}
+	return sc
+}
+
+// mixed: random interleaving of deliveries (also out of order and repeated), verification messages
+// for checkpoints of both branches (may or may not complete a supermajority against the best chain),
+// malformed messages (unknown source / target, the tree root as target, wrong signer), queries.
+func genMixed(r *Rng, id int) *Scenario {
+	trunk := 4
+	sc := &Scenario{ID: id, Stream: "mixed", Seed: r.Next(), Trunk: trunk, Branches: map[string]int{"A": 6 + r.Intn(7), "B": 4 + r.Intn(6), "C": 1 + r.Intn(3)}, SampleMs: 3, Expect: "any"}
+	sc.Setup = chain("T", 1, trunk)
+	pre := 1 + r.Intn(4)
+	sc.Setup = append(sc.Setup, chain("A", 5, 4+pre)...)
+	a := chain("A", 5+pre, 4+sc.Branches["A"])
+	b := chain("B", 5, 4+sc.Branches["B"])
+	cblocks := chain("C", 5, 4+sc.Branches["C"])
+	if r.Chance(40) && len(b) > 2 { // out of order: orphans
+		i := r.Intn(len(b) - 1)
+		b[i], b[i+1] = b[i+1], b[i]
+	}
+	if r.Chance(30) {
+		b = append(b, b[r.Intn(len(b))]) // a repeat
+	}
+	var votes []Event
+	tgtA, tgtB := "A8", "B8"
+	order := r.Intn(3)
+	for _, k := range []int{1, 2, 3} {
+		switch order {
+		case 0: // A8 first: B8 votes by the same keys are then refused (same target height)
+			votes = append(votes, vote(k, "G", tgtA))
+		case 1: // B8 only: may move the best chain
+			votes = append(votes, vote(k, "G", tgtB))
+		default: // two keys each: no supermajority
+			if k < 3 {
+				votes = append(votes, vote(k, "G", tgtA))
+			} else {
+				votes = append(votes, vote(k, "G", tgtB))
+			}
+		}
+	}
+	// malformed / boundary messages
+	bad := []Event{vote(1, "G", "G"), vote(2, "A6", "A8"), vote(3, "G", "C5"), vote(1, "T4", "G"), vote(0, "G", "T4"), vote(1, "G", "T4")}
+	for i := 0; i < 2+r.Intn(3); i++ {
+		votes = append(votes, bad[r.Intn(len(bad))])
+	}
+	for i := len(votes) - 1; i > 0; i-- {
+		j := r.Intn(i + 1)
+		votes[i], votes[j] = votes[j], votes[i]
+	}
+	names := []string{"G", "T4", "A5", "B5", "C5"}
+	switch r.Intn(4) {
+	case 0:
+		sc.Workers = []Worker{{Kind: "vote", Events: votes}, {Kind: "block", Events: append(append(a, b...), cblocks...)}, {Kind: "read", Events: randReads(r, 10, names)}}
+	case 1:
+		sc.Workers = []Worker{{Kind: "vote", Events: votes}, {Kind: "block", Events: a}, {Kind: "block", Events: append(b, cblocks...)}, {Kind: "read", Events: randReads(r, 10, names)}}
+	case 2:
+		h := len(votes) / 2
+		sc.Workers = []Worker{{Kind: "vote", Events: votes[:h]}, {Kind: "vote", Events: votes[h:]}, {Kind: "block", Events: append(append(b, a...), cblocks...)}, {Kind: "read", Events: randReads(r, 10, names)}}
+	default:
+		sc.Workers = []Worker{{Kind: "vote", Events: votes}, {Kind: "block", Events: append(append(b, cblocks...), a...)}}
+	}
+	return sc
+}
+
+// race-directed: many cached verification messages and many epoch-opening blocks on both branches,
+// so that casper's loop (authCachedMsg) overlaps with ApplyBlock's tree updates.
+func genRaceDirected(r *Rng, id int) *Scenario {
+	sc := &Scenario{ID: id, Stream: "race-directed", Seed: r.Next(), Trunk: 4, Branches: map[string]int{"A": 17, "B": 9}, SampleMs: 0, Expect: "any"}
+	sc.Setup = append(chain("T", 1, 4), chain("A", 5, 12)...)
+	for _, k := range []int{1, 2, 3} {
+		sc.Setup = append(sc.Setup, vote(k, "G", "B8"))
+	}
+	// also cache messages for the later checkpoints of both branches
+	for _, k := range []int{1, 2} {
+		sc.Setup = append(sc.Setup, vote(k, "B8", "B12"))
+	}
+	sc.Setup = append(sc.Setup, chain("B", 5, 8)...)
+	sc.Workers = []Worker{{Kind: "block", Events: chain("B", 9, 13)}, {Kind: "block", Events: chain("A", 13, 21)},
+		{Kind: "read", Events: randReads(r, 6, []string{"G", "T4", "A12", "B8"})}}
+	return sc
+}
+
+// ---------------------------------------------------------------- running children
+
+func jobs() int {
+	if v, err := strconv.Atoi(os.Getenv("VERIF_JOBS")); err == nil && v > 0 {
+		if v > 8 {
+			v = 8
+		}
+		return v
+	}
+	return 6
+}
+
+type runOut struct {
+	sc     *Scenario
+	res    *Result
+	crash  string // child died
+	races  []raceReport
+	race   bool // ran under the race detector
+	tries  int
+}
+
+func scratchBase() string {
+	if st, err := os.Stat("/dev/shm"); err == nil && st.IsDir() {
+		return "/dev/shm"
+	}
+	return os.TempDir()
+}
+
+func runChild(bin string, sc *Scenario, dir string, race bool) *runOut {
+	out := &runOut{sc: sc, race: race}
+	f := filepath.Join(dir, fmt.Sprintf("sc_%d.json", sc.ID))
+	js, _ := json.Marshal(sc)
+	os.WriteFile(f, js, 0644)
+	scratch, err := os.MkdirTemp(scratchBase(), "c37-node-")
+	if err != nil {
+		out.crash = err.Error()
+		return out
+	}
+	defer os.RemoveAll(scratch)
+	cmd := exec.Command(bin, "child", "run", f, scratch)
+	var stdout, stderr bytes.Buffer
+	cmd.Stdout, cmd.Stderr = &stdout, &stderr
+	logPrefix := filepath.Join(dir, fmt.Sprintf("race_%d", sc.ID))
+	cmd.Env = append(os.Environ(), "GORACE=log_path="+logPrefix+" halt_on_error=0 exitcode=0 history_size=3")
+	done := make(chan error, 1)
+	if err := cmd.Start(); err != nil {
+		out.crash = err.Error()
+		return out
+	}
+	go func() { done <- cmd.Wait() }()
+	select {
+	case err = <-done:
+	case <-time.After(600 * time.Second):
+		cmd.Process.Kill()
+		<-done
+		out.res = &Result{ID: sc.ID, Outcome: "slow", Info: "child killed after 600 s"}
+		return out
+	}
+	var res Result
+	line := strings.TrimSpace(stdout.String())
+	if i := strings.LastIndex(line, "\n"); i >= 0 {
+		line = line[i+1:]
+	}
+	if jerr := json.Unmarshal([]byte(line), &res); jerr != nil || err != nil {
+		tail := stderr.String()
+		if len(tail) > 3000 {
+			tail = tail[len(tail)-3000:]
+		}
+		out.crash = fmt.Sprintf("child exit: %v; stderr tail: %s", err, tail)
+		return out
+	}
+	out.res = &res
+	if race {
+		logs, _ := filepath.Glob(logPrefix + ".*")
+		for _, l := range logs {
+			data, _ := os.ReadFile(l)
+			out.races = append(out.races, parseRaces(string(data))...)
+			os.Remove(l)
+		}
+	}
+	return out
+}
+
+// ---------------------------------------------------------------- race reports
+
+type raceStack struct {
+	Kind   string   `json:"kind"` // "Write" | "Read" | "Previous write" | ...
+	Frames []string `json:"frames"`
+	Path   string   `json:"path"` // call path inside protocol/ and protocol/casper, outermost first
+	Proc   string   `json:"proc"`
+}
+
+type raceReport struct {
+	A, B raceStack
+	Node bool   // a frame of the node's code (github.com/bytom/bytom/...) is involved
+	Text string // first lines
+}
+
+var reRaceHead = regexp.MustCompile(`^(Write|Read|Previous write|Previous read|Atomic write|Previous atomic write|Atomic read|Previous atomic read) at 0x[0-9a-f]+ by (main goroutine|goroutine \d+):`)
+
+func parseRaces(log string) []raceReport {
+	var out []raceReport
+	for _, blk := range strings.Split(log, "==================") {
+		if !strings.Contains(blk, "WARNING: DATA RACE") {
+			continue
+		}
+		lines := strings.Split(blk, "\n")
+		var stacks []raceStack
+		var cur *raceStack
+		var frames []frame
+		flush := func() {
+			if cur == nil {
+				return
+			}
+			g := gor{frames: frames}
+			cur.Proc = procOf(&g)
+			var path []string
+			for i := len(frames) - 1; i >= 0; i-- {
+				if rf := relFile(frames[i].file); rf != "" {
+					path = append(path, fmt.Sprintf("%s:%d", rf, frames[i].line))
+				}
+				cur.Frames = append(cur.Frames, frames[i].fn)
+			}
+			cur.Path = strings.Join(path, ">")
+			stacks = append(stacks, *cur)
+			cur, frames = nil, nil
+		}
+		for i := 0; i < len(lines); i++ {
+			l := lines[i]
+			if m := reRaceHead.FindStringSubmatch(strings.TrimSpace(l)); m != nil {
+				flush()
+				cur = &raceStack{Kind: m[1]}
+				continue
+			}
+			if strings.HasPrefix(strings.TrimSpace(l), "Goroutine ") {
+				flush()
+				continue
+			}
+			if cur != nil && strings.HasPrefix(l, "  ") && !strings.HasPrefix(l, "      ") && i+1 < len(lines) {
+				fn := strings.TrimSpace(l)
+				if j := strings.LastIndex(fn, "("); j > 0 {
+					fn = fn[:j]
+				}
+				loc := strings.TrimSpace(lines[i+1])
+				if k := strings.Index(loc, " "); k > 0 {
+					loc = loc[:k]
+				}
+				if c := strings.LastIndex(loc, ":"); c > 0 {
+					ln, _ := strconv.Atoi(loc[c+1:])
+					frames = append(frames, frame{fn: fn, file: loc[:c], line: ln})
+				}
+				i++
+			}
+		}
+		flush()
+		if len(stacks) < 2 {
+			continue
+		}
+		rr := raceReport{A: stacks[0], B: stacks[1]}
+		for _, s := range stacks[:2] {
+			for _, f := range s.Frames {
+				if strings.Contains(f, "github.com/bytom/bytom/") {
+					rr.Node = true
+				}
+			}
+		}
+		t := strings.TrimSpace(blk)
+		if len(t) > 2500 {
+			t = t[:2500]
+		}
+		rr.Text = t
+		out = append(out, rr)
+	}
+	return out
+}
+
+// accPC: the access region of process proc whose access path is the longest prefix of path.
+func (sk *skeleton) accPC(proc, path string) (int, bool) {
+	best, bestLen := -1, -1
+	for p, pc := range sk.acc[proc] {
+		if (path == p || strings.HasPrefix(path, p+">")) && len(p) > bestLen {
+			best, bestLen = pc, len(p)
+		}
+	}
+	return best, best >= 0
+}
+
+// ---------------------------------------------------------------- model side of a scenario
+
+func modelProc(name string) string {
+	for _, k := range []string{"vote", "block", "tx", "read"} {
+		if strings.HasPrefix(name, k) {
+			return k
+		}
+	}
+	return name // bp, loop
+}
+
+// pid of a tracked goroutine in the model configuration (bp 0, loop 1, votes, blocks, txs, reads)
+func pidOf(name string, k cfgKey) int {
+	switch {
+	case name == "bp":
+		return 0
+	case name == "loop":
+		return 1
+	}
+	kind := modelProc(name)
+	i, _ := strconv.Atoi(strings.TrimPrefix(name, kind))
+	switch kind {
+	case "vote":
+		return 2 + i
+	case "block":
+		return 2 + k.v + i
+	case "tx":
+		return 2 + k.v + k.b + i
+	case "read":
+		return 2 + k.v + k.b + k.t + i
+	}
+	return -1
+}
+
+// projection of one dump: "pid:pc" pairs (sorted) for the goroutines blocked exactly at a modelled
+// operation; finished workers are at their halt node.  ok=false: a goroutine sits at a blocking
+// position inside the modelled packages that the skeleton does not know (reported separately).
+func (sk *skeleton) project(ps []GPos, sc *Scenario, k cfgKey) (proj [][2]int, unknown []string) {
+	seen := map[string]bool{}
+	for _, p := range ps {
+		seen[p.Proc] = true
+		if p.Proc == "setup" {
+			continue
+		}
+		if !blockedStates[p.State] || !p.Leaf || p.Path == "" {
+			continue // running, or blocked somewhere below an opaque call: position unknown
+		}
+		pc, ok := sk.at[modelProc(p.Proc)][p.Path]
+		if !ok {
+			unknown = append(unknown, p.Proc+"@"+p.Path+"["+p.State+"]")
+			continue
+		}
+		proj = append(proj, [2]int{pidOf(p.Proc, k), pc})
+	}
+	// workers whose goroutine is gone have returned from all their calls
+	counts := map[string]int{}
+	for _, w := range sc.Workers {
+		name := fmt.Sprintf("%s%d", w.Kind, counts[w.Kind])
+		counts[w.Kind]++
+		if !seen[name] {
+			if h := sk.halt[w.Kind]; h >= 0 {
+				proj = append(proj, [2]int{pidOf(name, k), h})
+			}
+		}
+	}
+	sort.Slice(proj, func(i, j int) bool { return proj[i][0] < proj[j][0] })
+	return proj, unknown
+}
+
+func kindOfPid(pid int, k cfgKey) string {
+	switch i := pid - 2; {
+	case pid == 0:
+		return "bp"
+	case pid == 1:
+		return "loop"
+	case i < k.v:
+		return "vote"
+	case i < k.v+k.b:
+		return "block"
+	case i < k.v+k.b+k.t:
+		return "tx"
+	}
+	return "read"
+}
+
+func coqProj(p [][2]int) string {
+	var items []string
+	for _, x := range p {
+		items = append(items, fmt.Sprintf("(%d, %d)", x[0], x[1]))
+	}
+	return "[" + strings.Join(items, "; ") + "]"
+}
+
+// ---------------------------------------------------------------- the run
+
+func runC37(c *Ctx) error {
+	root := filepath.Dir(filepath.Dir(filepath.Dir(os.Args[0])))
+	if abs, err := filepath.Abs(os.Args[0]); err == nil {
+		root = filepath.Dir(filepath.Dir(filepath.Dir(abs)))
+	}
+	repo := os.Getenv("VERIF_REPO")
+	if repo == "" {
+		repo = "/repo"
+	}
+	sk, err := loadSkeleton(root, repo)
+	if err != nil {
+		return err
+	}
+	c.Stats.Rule = "a scenario is non-trivial when at least two workers ran concurrently against the node and at least one sampled dump (or the standstill dump) placed a goroutine at a skeleton operation other than the idle points of the two server loops; distinctness by (stream, workers, events)"
+
+	// ---- scenarios
+	var scs []*Scenario
+	id := 0
+	add := func(n int, g func(*Rng, int) *Scenario) {
+		for i := 0; i < n; i++ {
+			scs = append(scs, g(c.Rng, id))
+			id++
+		}
+	}
+	add(c.N(3, 8), genFlip)
+	add(c.N(6, 24), genSafe)
+	add(c.N(3, 10), genEarly)
+	add(c.N(8, 40), genMixed)
+	// race tier: the race-directed scenarios plus a sample of the others, under the race detector
+	var raceScs []*Scenario
+	for i := 0; i < c.N(4, 14); i++ {
+		raceScs = append(raceScs, genRaceDirected(c.Rng, id))
+		id++
+	}
+	for i := 0; i < c.N(1, 4); i++ {
+		s := genSafe(c.Rng, id)
+		s.SampleMs = 0
+		raceScs = append(raceScs, s)
+		id++
+		m := genMixed(c.Rng, id)
+		m.SampleMs = 0
+		raceScs = append(raceScs, m)
+		id++
+	}
+	if c.Replay != "" {
+		c.Stats.Count("replay-run")
+	}
+
+	// ---- race binary (built at run time; CGO is needed)
+	raceBin := filepath.Join(root, "build", "bin", "h_c37_race")
+	raceOK := true
+	{
+		args := []string{"build"}
+		if repo != "/repo" {
+			args = append(args, "-modfile="+filepath.Join(root, "build", "go.alt.mod"))
+		}
+		args = append(args, "-race", "-tags", "verif", "-o", raceBin, "./c37")
+		cmd := exec.Command("go", args...)
+		cmd.Dir = filepath.Join(root, "harness")
+		cmd.Env = append(os.Environ(), "CGO_ENABLED=1", "GOFLAGS=-mod=mod", "GOPROXY=off", "GOSUMDB=off", "GOTOOLCHAIN=local")
+		t0 := time.Now()
+		if out, err := cmd.CombinedOutput(); err != nil {
+			raceOK = false
+			tail := string(out)
+			if len(tail) > 1500 {
+				tail = tail[len(tail)-1500:]
+			}
+			// the node's code no longer builds with -race (or cgo is gone): say so loudly
+			return fmt.Errorf("go build -race failed: %v: %s", err, tail)
+		}
+		c.Stats.Extra["race_build_s"] = int(time.Since(t0).Seconds())
+	}
+
+	// ---- run
+	dir, err := os.MkdirTemp(c.Out, "c37-run-")
+	if err != nil {
+		return err
+	}
+	defer os.RemoveAll(dir)
+	type job struct {
+		sc   *Scenario
+		race bool
+	}
+	var jobsList []job
+	for _, s := range scs {
+		jobsList = append(jobsList, job{s, false})
+	}
+	if raceOK {
+		for _, s := range raceScs {
+			jobsList = append(jobsList, job{s, true})
+		}
+	}
+	results := make([]*runOut, len(jobsList))
+	var wg sync.WaitGroup
+	sem := make(chan struct{}, jobs())
+	for i, j := range jobsList {
+		wg.Add(1)
+		go func(i int, j job) {
+			defer wg.Done()
+			sem <- struct{}{}
+			defer func() { <-sem }()
+			bin := os.Args[0]
+			if j.race {
+				bin = raceBin
+			}
+			results[i] = runChild(bin, j.sc, dir, j.race)
+		}(i, j)
+	}
+	wg.Wait()
+
+	// ---- judge
+	knownShown := 0
+	for _, ro := range results {
+		sc := ro.sc
+		k := cfgOf(sc)
+		key, _ := json.Marshal(struct {
+			S string
+			W []Worker
+			U []Event
+		}{sc.Stream, sc.Workers, sc.Setup})
+		c.Stats.Count("stream:" + sc.Stream)
+		if ro.race {
+			c.Stats.Count("ran-under-race-detector")
+		}
+		c.Stats.Count(fmt.Sprintf("workers:v%db%dt%dr%d", k.v, k.b, k.t, k.r))
+		for _, w := range sc.Workers {
+			for _, e := range w.Events {
+				c.Stats.Count("event:" + e.K)
+			}
+		}
+		if ro.crash != "" {
+			c.Stats.Count("outcome:child-crash")
+			c.Stats.Case(string(key), false)
+			c.Stats.Fail("class=child-crash: the node's process died during scenario "+sc.Stream+": "+firstLine(ro.crash), map[string]interface{}{"scenario": sc, "stderr": ro.crash})
+			continue
+		}
+		res := ro.res
+		c.Stats.Count("outcome:" + res.Outcome)
+		if res.Outcome == "harness-error" {
+			return fmt.Errorf("scenario %d (%s): %s", sc.ID, sc.Stream, res.Info)
+		}
+		if res.Errors > 0 {
+			c.Stats.Count("scenarios-with-refused-calls")
+		}
+		sawBusy := false
+		// -- oracle: every call returns
+		if res.Outcome == "stuck" || res.Outcome == "setup-stuck" {
+			c.Stats.Count("standstill:" + res.Class)
+			what := fmt.Sprintf("class=%s: %d call(s) never returned in a %s scenario; goroutine dump shows %s", res.Class, res.Pending, sc.Stream, describe(res.Stuck))
+			if res.Class != "auth-rollback-lock-cycle" || knownShown < 3 {
+				// (the known class is reported a few times only: hlib keeps the first 20 failures)
+				c.Stats.Fail(what, map[string]interface{}{"scenario": sc, "stuck": res.Stuck, "dump": res.Dump})
+			}
+			if res.Class == "auth-rollback-lock-cycle" {
+				knownShown++
+			}
+		}
+		// -- oracle: race detector
+		for _, rr := range ro.races {
+			if !rr.Node {
+				c.Stats.Count("race-report-outside-the-node(ignored)")
+				continue
+			}
+			c.Stats.Count("race-report")
+			c.Stats.Fail(fmt.Sprintf("class=data-race: %s at %s against %s at %s", rr.A.Kind, top(rr.A), rr.B.Kind, top(rr.B)),
+				map[string]interface{}{"scenario": sc, "report": rr.Text})
+			// model side: both accesses must be regions that are simultaneously occupied in some reachable state
+			if name, ok := tables[k]; ok {
+				pa, oka := sk.accPC(modelProcOfStack(rr.A.Proc, sc), rr.A.Path)
+				pb, okb := sk.accPC(modelProcOfStack(rr.B.Proc, sc), rr.B.Path)
+				if oka && okb {
+					proj := [][2]int{{pidOfStack(rr.A.Proc, sc, k), pa}, {pidOfStack(rr.B.Proc, sc, k), pb}}
+					cid := c.Cases.Add(fmt.Sprintf("[proj_ok tbl_%s false %s]", name, coqProj(proj)), "[true]")
+					c.Stats.CaseIndex[strconv.Itoa(cid)] = map[string]interface{}{"scenario": sc.ID, "kind": "race-regions", "proj": proj}
+				} else {
+					c.Stats.Count("race-report-not-mapped-to-model-regions")
+				}
+			}
+		}
+		// -- correspondence: sampled dumps (and the standstill) against the model's reachable states
+		if name, ok := tables[k]; ok && !ro.race {
+			distinct := map[string][][2]int{}
+			var order []string
+			for _, smp := range res.Samples {
+				proj, unknown := sk.project(smp, sc, k)
+				for _, u := range unknown {
+					// a correspondence break (the translator does not know a blocking position), not a property violation
+					c.Stats.Count("position-unknown-to-skeleton")
+					cid := c.Cases.Add("[false]", "[true]")
+					c.Stats.CaseIndex[strconv.Itoa(cid)] = map[string]interface{}{"scenario": sc.ID, "kind": "goroutine blocks at a position that is not an operation of the extracted skeleton", "position": u}
+				}
+				if len(proj) == 0 {
+					continue
+				}
+				s := coqProj(proj)
+				if _, ok := distinct[s]; !ok {
+					distinct[s] = proj
+					order = append(order, s)
+				}
+				for _, x := range proj {
+					idle := x[0] <= 1 && x[1] == 0 // idle points of the two server loops (bp: select; loop: receive)
+					finished := x[0] >= 2 && x[1] == sk.halt[kindOfPid(x[0], k)]
+					if !idle && !finished {
+						sawBusy = true
+					}
+				}
+			}
+			c.Stats.Count(fmt.Sprintf("samples:%s", bucket(len(res.Samples))))
+			c.Stats.Count(fmt.Sprintf("distinct-projections:%s", bucket(len(order))))
+			if len(order) > 0 {
+				var exprs, obs []string
+				for _, s := range order {
+					exprs = append(exprs, fmt.Sprintf("proj_ok tbl_%s false %s", name, s))
+					obs = append(obs, "true")
+				}
+				cid := c.Cases.Add("["+strings.Join(exprs, "; ")+"]", "["+strings.Join(obs, "; ")+"]")
+				c.Stats.CaseIndex[strconv.Itoa(cid)] = map[string]interface{}{"scenario": sc.ID, "stream": sc.Stream, "kind": "sampled-positions", "table": name, "n": len(order)}
+				c.Stats.Distribution["model_evaluated"] += len(order)
+			}
+			if res.Outcome == "stuck" {
+				proj, _ := sk.project(res.Stuck, sc, k)
+				if len(proj) > 0 {
+					sawBusy = true
+					cid := c.Cases.Add(fmt.Sprintf("[proj_ok tbl_%s true %s]", name, coqProj(proj)), "[true]")
+					c.Stats.CaseIndex[strconv.Itoa(cid)] = map[string]interface{}{"scenario": sc.ID, "stream": sc.Stream, "kind": "standstill-is-model-deadlock", "table": name, "proj": proj}
+					c.Stats.Distribution["model_evaluated"]++
+				}
+			}
+			if sc.Stream == "safe" && len(order) > 0 {
+				// no verification message of a safe scenario can move the best chain: the guarded model must explain it too
+				var exprs, obs []string
+				for _, s := range order {
+					exprs = append(exprs, fmt.Sprintf("proj_ok tblg_%s false %s", name, s))
+					obs = append(obs, "true")
+				}
+				cid := c.Cases.Add("["+strings.Join(exprs, "; ")+"]", "["+strings.Join(obs, "; ")+"]")
+				c.Stats.CaseIndex[strconv.Itoa(cid)] = map[string]interface{}{"scenario": sc.ID, "stream": sc.Stream, "kind": "sampled-positions-guarded-model", "table": name}
+				c.Stats.Distribution["model_evaluated"] += len(order)
+			}
+		} else if !ok {
+			c.Stats.Count("no-model-table-for-this-worker-mix")
+		}
+		nontrivial := len(sc.Workers) >= 2 && (sawBusy || res.Outcome == "stuck" || (ro.race && res.Calls > len(sc.Setup)))
+		c.Stats.Case(string(key), nontrivial)
+		c.Stats.Sample(map[string]interface{}{"stream": sc.Stream, "workers": fmt.Sprintf("v%db%dt%dr%d", k.v, k.b, k.t, k.r), "outcome": res.Outcome, "class": res.Class,
+			"calls": res.Calls, "pending": res.Pending, "refused": res.Errors, "samples": len(res.Samples), "race_detector": ro.race})
+	}
+	header := "From Coq Require Import NArith List Bool.\nFrom C37 Require Import Lts Run.\nImport ListNotations.\nOpen Scope N_scope.\n"
+	return c.Cases.Write(c.Out, header, "list bool", "bools_eqb")
+}
+
+func modelProcOfStack(proc string, sc *Scenario) string {
+	if proc == "bp" || proc == "loop" {
+		return proc
+	}
+	if strings.HasPrefix(proc, "w") {
+		if i, err := strconv.Atoi(proc[1:]); err == nil && i < len(sc.Workers) {
+			return sc.Workers[i].Kind
+		}
+	}
+	return ""
+}
+
+func pidOfStack(proc string, sc *Scenario, k cfgKey) int {
+	if proc == "bp" {
+		return 0
+	}
+	if proc == "loop" {
+		return 1
+	}
+	if strings.HasPrefix(proc, "w") {
+		if i, err := strconv.Atoi(proc[1:]); err == nil && i < len(sc.Workers) {
+			n := 0
+			for j := 0; j < i; j++ {
+				if sc.Workers[j].Kind == sc.Workers[i].Kind {
+					n++
+				}
+			}
+			return pidOf(fmt.Sprintf("%s%d", sc.Workers[i].Kind, n), k)
+		}
+	}
+	return -1
+}
+
+func firstLine(s string) string {
+	s = strings.TrimSpace(s)
+	if i := strings.Index(s, "\n"); i >= 0 {
+		s = s[:i]
+	}
+	if len(s) > 300 {
+		s = s[:300]
+	}
+	return s
+}
+
+func top(s raceStack) string {
+	for i := len(s.Frames) - 1; i >= 0; i-- {
+		if strings.Contains(s.Frames[i], "github.com/bytom/bytom/") {
+			f := s.Frames[i]
+			return f[strings.LastIndex(f, "/")+1:]
+		}
+	}
+	if len(s.Frames) > 0 {
+		return s.Frames[len(s.Frames)-1]
+	}
+	return "?"
+}
+
+func describe(ps []GPos) string {
+	var r []string
+	for _, p := range ps {
+		f := p.Funcs
+		if i := strings.LastIndex(f, ">"); i >= 0 {
+			f = f[i+1:]
+		}
+		if f == "" {
+			f = "(outside the modelled packages)"
+		}
+		r = append(r, fmt.Sprintf("%s [%s] in %s", p.Proc, p.State, f))
+	}
+	return strings.Join(r, "; ")
+}
+
+func bucket(n int) string {
+	switch {
+	case n == 0:
+		return "0"
+	case n <= 3:
+		return "1-3"
+	case n <= 10:
+		return "4-10"
+	case n <= 40:
+		return "11-40"
+	}
+	return ">40"
+}
